@@ -722,10 +722,10 @@ Proof. intros H. rewrite existsb_app. cbn [existsb]. rewrite H. cbn [orb]. apply
 
 Lemma Hist_step ws n h s st :
   Inv ws s -> Hist ws h s -> n < unknown_k -> step_ok ws n st = true -> enabled s st = true ->
-  m_next s + 1 < two64 ->
+  m_next s + 1 < two64 -> srv_own s st = true ->
   Hist ws (h ++ [st]) (mstep ws s st).
 Proof.
-  intros HI HH Hn Hok En Hb. unfold mstep. rewrite En. cbn [negb].
+  intros HI HH Hn Hok En Hb Hso. unfold mstep. rewrite En. cbn [negb].
   assert (Hmod : (m_next s + 1) mod two64 = m_next s + 1) by (apply N.mod_small; exact Hb).
   destruct st as [c|c|f|a| |c|c|c id|c].
   - pose proof (Hist_weaken ws h (Register c) s eq_refl HH) as HHw.
@@ -799,21 +799,172 @@ Proof.
     + intros _. unfold notify_forwarded. apply existsb_snoc_true. apply N.eqb_refl.
 Qed.
 
-Lemma Hist_run ws n l : forall h s,
-  Inv ws s -> Hist ws h s -> n < unknown_k -> forallb (step_ok ws n) l = true -> all_enabled ws s l = true ->
-  all_fresh ws s l = true -> m_next s + N.of_nat (length l) < two64 ->
-  Inv ws (run ws s l) /\ Hist ws (h ++ l) (run ws s l).
+(** * counter-issued ids *)
+
+Lemma is_counter_snoc h st c :
+  is_counter (h ++ [st]) c = is_counter h c || (match st with Register k => k =? c | _ => false end).
+Proof. unfold is_counter. rewrite existsb_app. cbn [existsb]. rewrite orb_false_r. reflexivity. Qed.
+
+Record Cnt (h : list step) (s : mux) : Prop := mkCnt {
+  K_lt : forall c id, In (c, id) (m_issued s) -> is_counter h c = true -> id < m_next s;
+  K_done : forall c, is_counter h c = true -> aget (m_issued s) c <> None \/ aget (m_out s) c <> None;
+  K_inj : forall c c' id, In (c, id) (m_issued s) -> In (c', id) (m_issued s) ->
+      is_counter h c = true -> is_counter h c' = true -> c = c'
+}.
+
+Lemma Cnt0 : Cnt [] mux0.
+Proof. constructor; cbn; intros; try contradiction; discriminate. Qed.
+
+Lemma Cnt_same h h' s s' :
+  (forall c, is_counter h' c = is_counter h c) -> m_issued s' = m_issued s -> m_next s' = m_next s ->
+  (forall c, aget (m_out s) c <> None -> aget (m_out s') c <> None) -> Cnt h s -> Cnt h' s'.
 Proof.
-  induction l as [|st l IH]; intros h s HI HH Hn Hok En Hf Hb; cbn [run fold_left].
-  - rewrite app_nil_r. split; assumption.
+  intros Hc Ei En Ho [K1 K2 K3]. constructor; rewrite ?Ei, ?En.
+  - intros c id Hin C. rewrite Hc in C. exact (K1 c id Hin C).
+  - intros c C. rewrite Hc in C. destruct (K2 c C) as [A|A]; [left; exact A|right; exact (Ho c A)].
+  - intros c c' id H1 H2 C C'. rewrite Hc in C, C'. exact (K3 c c' id H1 H2 C C').
+Qed.
+
+Lemma out_ext_step ws s st : exists t, m_out (mstep ws s st) = m_out s ++ t.
+Proof.
+  unfold mstep. destruct (negb (enabled s st)); [exists []; rewrite app_nil_r; reflexivity|].
+  assert (D : forall s0, exists t, m_out (deliver s0) = m_out s0 ++ t).
+  { intros s0. unfold deliver. destruct (m_matched s0) as [[c f]|]; [destruct (aget (m_out s0) c)|]; simp_m;
+      try (exists []; rewrite app_nil_r; reflexivity). eexists. reflexivity. }
+  assert (R : forall s0 f, m_out (route ws s0 f) = m_out s0).
+  { intros s0 f. unfold route. destruct (ws && negb (f_notify f =? 0)); [reflexivity|].
+    destruct (aget (m_pending s0) (f_id f)); reflexivity. }
+  assert (F : forall c o, exists t, m_out (finish s c o) = m_out s ++ t).
+  { intros c o. unfold finish. destruct (aget (m_issued s) c); simp_m; [eexists; reflexivity|exists []; rewrite app_nil_r; reflexivity]. }
+  destruct st as [c|c|f|a| |c|c|c id|c].
+  - destruct (isSome (aget (m_pending s) (m_next s))); simp_m; [eexists; reflexivity|exists []; rewrite app_nil_r; reflexivity].
+  - destruct (aget (m_issued s) c); simp_m; exists []; rewrite app_nil_r; reflexivity.
+  - rewrite R. apply D.
+  - destruct (frame_of s a); [rewrite R; apply D|exists []; rewrite app_nil_r; reflexivity].
+  - apply D.
+  - apply F.
+  - apply F.
+  - destruct (isSome (aget (m_pending s) id)); simp_m; [eexists; reflexivity|exists []; rewrite app_nil_r; reflexivity].
+  - simp_m. eexists. reflexivity.
+Qed.
+
+Lemma out_mono_step ws s st c : aget (m_out s) c <> None -> aget (m_out (mstep ws s st)) c <> None.
+Proof.
+  intros H. destruct (out_ext_step ws s st) as [t E]. rewrite E, aget_app. destruct (aget (m_out s) c); congruence.
+Qed.
+
+Definition registers (st : step) : bool := match st with Register _ | Forward _ _ => true | _ => false end.
+
+Lemma noreg_step ws s st : registers st = false ->
+  m_issued (mstep ws s st) = m_issued s /\ m_next (mstep ws s st) = m_next s.
+Proof.
+  intros Hr. unfold mstep. destruct (negb (enabled s st)); [split; reflexivity|].
+  destruct st as [c|c|f|a| |c|c|c id|c]; try discriminate.
+  - destruct (aget (m_issued s) c); split; reflexivity.
+  - rewrite route_issued, route_next, deliver_issued, deliver_next. split; reflexivity.
+  - destruct (frame_of s a); [rewrite route_issued, route_next, deliver_issued, deliver_next|]; split; reflexivity.
+  - rewrite deliver_issued, deliver_next. split; reflexivity.
+  - rewrite finish_issued, finish_next. split; reflexivity.
+  - rewrite finish_issued, finish_next. split; reflexivity.
+  - split; reflexivity.
+Qed.
+
+Lemma Cnt_step ws h s st :
+  Inv ws s -> Cnt h s -> enabled s st = true -> m_next s + 1 < two64 -> Cnt (h ++ [st]) (mstep ws s st).
+Proof.
+  intros HI HC En Hb.
+  destruct (registers st) eqn:Hr.
+  - assert (Hmod : (m_next s + 1) mod two64 = m_next s + 1) by (apply N.mod_small; exact Hb).
+    destruct HC as [K1 K2 K3]. unfold mstep. rewrite En. cbn [negb].
+    destruct st as [c|c|f|a| |c|c|c id|c]; try discriminate; cbn [enabled] in En;
+      apply enabled_new in En; destruct En as [Ei Eo].
+    + (* Register c *)
+      assert (Hnew : forall id, ~ In (c, id) (m_issued s)).
+      { intros id Hin. apply aget_None in Ei. apply Ei. apply (in_map fst) in Hin. exact Hin. }
+      assert (Hold : forall x id, In (x, id) (m_issued s) -> is_counter (h ++ [Register c]) x = true -> is_counter h x = true).
+      { intros x id Hin C. rewrite is_counter_snoc in C. apply orb_true_iff in C. destruct C as [C|C]; [exact C|].
+        apply N.eqb_eq in C. subst x. exfalso. exact (Hnew id Hin). }
+      destruct (isSome (aget (m_pending s) (m_next s))); constructor; simp_m; rewrite ?Hmod.
+      * intros x id Hin C. specialize (K1 x id Hin (Hold x id Hin C)). lia.
+      * intros x C. rewrite is_counter_snoc in C. apply orb_true_iff in C. destruct C as [C|C].
+        -- destruct (K2 x C) as [A|A]; [left; exact A|right]. rewrite aget_app. destruct (aget (m_out s) x); congruence.
+        -- apply N.eqb_eq in C. subst x. right. rewrite aget_app, Eo. cbn [aget]. rewrite N.eqb_refl. discriminate.
+      * intros x x' id H1 H2 C C'. exact (K3 x x' id H1 H2 (Hold x id H1 C) (Hold x' id H2 C')).
+      * intros x id Hin C. apply in_app_or in Hin. destruct Hin as [Hin|[Hin|[]]].
+        -- specialize (K1 x id Hin (Hold x id Hin C)). lia.
+        -- inversion Hin; subst. lia.
+      * intros x C. rewrite is_counter_snoc in C. apply orb_true_iff in C. destruct C as [C|C].
+        -- destruct (K2 x C) as [A|A]; [left|right; exact A]. rewrite aget_app. destruct (aget (m_issued s) x); congruence.
+        -- apply N.eqb_eq in C. subst x. left. rewrite aget_app, Ei. cbn [aget]. rewrite N.eqb_refl. discriminate.
+      * intros x x' id H1 H2 C C'. apply in_app_or in H1. apply in_app_or in H2.
+        destruct H1 as [H1|[H1|[]]], H2 as [H2|[H2|[]]].
+        -- exact (K3 x x' id H1 H2 (Hold x id H1 C) (Hold x' id H2 C')).
+        -- inversion H2; subst x' id. specialize (K1 x _ H1 (Hold x _ H1 C)). lia.
+        -- inversion H1; subst x id. specialize (K1 x' _ H2 (Hold x' _ H2 C')). lia.
+        -- inversion H1; inversion H2; subst. reflexivity.
+    + (* Forward c id *)
+      assert (Hcf : is_counter h c = false).
+      { destruct (is_counter h c) eqn:C; [|reflexivity]. destruct (K2 c C); congruence. }
+      assert (Hsame : forall x, is_counter (h ++ [Forward c id]) x = is_counter h x).
+      { intros x. rewrite is_counter_snoc. apply orb_false_r. }
+      destruct (isSome (aget (m_pending s) id)); constructor; simp_m.
+      * intros x i Hin C. rewrite Hsame in C. exact (K1 x i Hin C).
+      * intros x C. rewrite Hsame in C. destruct (K2 x C) as [A|A]; [left; exact A|right].
+        rewrite aget_app. destruct (aget (m_out s) x); congruence.
+      * intros x x' i H1 H2 C C'. rewrite Hsame in C, C'. exact (K3 x x' i H1 H2 C C').
+      * intros x i Hin C. rewrite Hsame in C. apply in_app_or in Hin. destruct Hin as [Hin|[Hin|[]]]; [exact (K1 x i Hin C)|].
+        inversion Hin; subst x i. congruence.
+      * intros x C. rewrite Hsame in C. destruct (K2 x C) as [A|A]; [left|right; exact A].
+        rewrite aget_app. destruct (aget (m_issued s) x); congruence.
+      * intros x x' i H1 H2 C C'. rewrite Hsame in C, C'. apply in_app_or in H1. apply in_app_or in H2.
+        destruct H1 as [H1|[H1|[]]], H2 as [H2|[H2|[]]].
+        -- exact (K3 x x' i H1 H2 C C').
+        -- inversion H2; subst x' i. congruence.
+        -- inversion H1; subst x i. congruence.
+        -- inversion H1; inversion H2; subst. reflexivity.
+  - destruct (noreg_step ws s st Hr) as [Ei En'].
+    apply (Cnt_same h (h ++ [st]) s); try assumption.
+    + intros c. rewrite is_counter_snoc. destruct st; try discriminate; apply orb_false_r.
+    + intros c. apply out_mono_step.
+Qed.
+
+Lemma inj_nodup_snd (l : list (N * N)) :
+  NoDup (map fst l) -> (forall c c' id, In (c, id) l -> In (c', id) l -> c = c') -> NoDup (map snd l).
+Proof.
+  induction l as [|[c id] l IH]; cbn [map fst snd]; intros ND Hinj; [constructor|].
+  inversion ND as [|x xs Hnot ND']; subst x xs. constructor.
+  - intros Hin. apply in_map_iff in Hin. destruct Hin as [[c' id'] [E Hin]]. cbn [snd] in E. subst id'.
+    assert (c = c') by (apply (Hinj c c' id); [left; reflexivity|right; exact Hin]). subst c'.
+    apply Hnot. apply (in_map fst) in Hin. exact Hin.
+  - apply IH; [exact ND'|]. intros x x' i H1 H2. apply (Hinj x x' i); right; assumption.
+Qed.
+
+(** the ids that counter-issued calls put on the wire are pairwise distinct *)
+Lemma counter_ids_nodup ws h s : Inv ws s -> Cnt h s ->
+  NoDup (map snd (filter (fun ci => is_counter h (fst ci)) (m_wire s))).
+Proof.
+  intros HI [K1 K2 K3]. apply inj_nodup_snd.
+  - apply NoDup_filter_fst. exact (I_wire_nd _ _ HI).
+  - intros c c' id H1 H2. apply filter_In in H1. apply filter_In in H2. destruct H1 as [H1 C], H2 as [H2 C'].
+    cbn [fst] in C, C'. apply (K3 c c' id); try assumption; apply (I_wire _ _ HI); assumption.
+Qed.
+
+Lemma Hist_run ws n l : forall h s,
+  Inv ws s -> Hist ws h s -> Cnt h s -> n < unknown_k -> forallb (step_ok ws n) l = true -> all_enabled ws s l = true ->
+  all_srv_own ws s l = true -> m_next s + N.of_nat (length l) < two64 ->
+  Inv ws (run ws s l) /\ Hist ws (h ++ l) (run ws s l) /\ Cnt (h ++ l) (run ws s l).
+Proof.
+  induction l as [|st l IH]; intros h s HI HH HC Hn Hok En Hf Hb; cbn [run fold_left].
+  - rewrite app_nil_r. split; [assumption|split; assumption].
   - cbn [forallb] in Hok. apply andb_true_iff in Hok. destruct Hok as [Hok1 Hok2].
     cbn [all_enabled] in En. apply andb_true_iff in En. destruct En as [En1 En2].
-    cbn [all_fresh] in Hf. apply andb_true_iff in Hf. destruct Hf as [Hf1 Hf2].
+    cbn [all_srv_own] in Hf. apply andb_true_iff in Hf. destruct Hf as [Hf1 Hf2].
     cbn [length] in Hb.
     replace (h ++ st :: l) with ((h ++ [st]) ++ l) by (rewrite <- app_assoc; reflexivity).
     apply IH; try assumption.
-    + apply Inv_step; [exact HI|lia|exact Hf1].
+    + apply Inv_step; [exact HI|lia].
     + eapply Hist_step; try eassumption. lia.
+    + apply Cnt_step; try assumption. lia.
     + pose proof (next_step ws s st). lia.
 Qed.
 
@@ -892,19 +1043,20 @@ Lemma C04_holds_lemma cs : c04_wf cs = true -> ok_C04 cs (model_C04 cs) = true.
 Proof.
   unfold c04_wf. intros Hwf.
   apply andb_true_iff in Hwf. destruct Hwf as [Hwf _].
-  apply andb_true_iff in Hwf. destruct Hwf as [Hwf Hfr].
+  apply andb_true_iff in Hwf. destruct Hwf as [Hwf Hso].
   apply andb_true_iff in Hwf. destruct Hwf as [Hwf Hen].
   apply andb_true_iff in Hwf. destruct Hwf as [Hwf Hok].
   apply andb_true_iff in Hwf. destruct Hwf as [Hn Hlen].
   apply N.ltb_lt in Hn. apply N.ltb_lt in Hlen.
-  destruct (Hist_run (c_ws cs) (c_n cs) (c_sched cs) [] mux0 (Inv0 _) (Hist0 _) Hn Hok Hen Hfr) as [HI HH].
+  destruct (Hist_run (c_ws cs) (c_n cs) (c_sched cs) [] mux0 (Inv0 _) (Hist0 _) Cnt0 Hn Hok Hen Hso) as [HI [HH HC]].
   { cbn [mux0 m_next]. unfold two32, two64 in *. lia. }
-  cbn [app] in HH.
+  cbn [app] in HH, HC.
   pose proof (Inv_deliver _ _ HI) as HId. pose proof (Hist_deliver _ _ _ HH) as HHd.
-  unfold ok_C04, model_C04. cbn [o_out o_sub o_ids].
+  unfold ok_C04, model_C04, obs_of. cbn [o_out o_sub o_ids].
   rewrite ok_callers_map.
   - cbn [andb]. rewrite (H_sub _ _ _ HHd), listN_eqb_refl. cbn [andb].
-    apply nodupb_NoDup, NoDup_sortN. exact (proj2 (ids_distinct_inv _ _ HId)).
+    unfold counter_ids. apply nodupb_NoDup, NoDup_sortN. rewrite deliver_wire.
+    exact (counter_ids_nodup _ _ _ HI HC).
   - intros c _. eapply ok_caller_final; [exact HHd|apply deliver_matched].
 Qed.
 
@@ -1081,7 +1233,7 @@ Lemma nofwd_reach ws l : N.of_nat (length l) + 2 < two64 -> existsb is_forward l
   Inv ws (run ws mux0 l) /\ Low (run ws mux0 l).
 Proof.
   intros Hb Hnf. destruct (nofwd_run ws l mux0 (Inv0 ws) Low0) as [F L]; [cbn [mux0 m_next]; lia|exact Hnf|].
-  split; [apply Inv_reach; assumption|exact L].
+  split; [apply Inv_reach; exact Hb|exact L].
 Qed.
 
 Lemma ids_fresh_reach ws l id c : N.of_nat (length l) + 2 < two64 -> existsb is_forward l = false ->
@@ -1092,29 +1244,134 @@ Lemma register_never_collides_reach ws l : N.of_nat (length l) + 2 < two64 -> ex
   aget (m_pending (run ws mux0 l)) (m_next (run ws mux0 l)) = None.
 Proof. intros Hb Hnf. destruct (nofwd_reach ws l Hb Hnf) as [HI HL]. exact (Low_pending ws _ HI HL). Qed.
 
+(** ** when no accepted registration reuses an id *)
+
+Lemma Uniq_step ws s st : Uniq s -> fresh_reg s st = true -> Uniq (mstep ws s st).
+Proof.
+  intros HU Hf. destruct (registers st) eqn:Hr.
+  - unfold mstep. destruct (negb (enabled s st)); [exact HU|]. unfold Uniq in *.
+    destruct st as [c|c|f|a| |c|c|c id|c]; try discriminate; cbn [fresh_reg] in Hf.
+    + destruct (isSome (aget (m_pending s) (m_next s))); simp_m; [exact HU|].
+      cbn [orb] in Hf. apply negb_true_iff, memN_false in Hf.
+      rewrite map_app. cbn [map snd]. apply NoDup_snoc; assumption.
+    + destruct (isSome (aget (m_pending s) id)); simp_m; [exact HU|].
+      cbn [orb] in Hf. apply negb_true_iff, memN_false in Hf.
+      rewrite map_app. cbn [map snd]. apply NoDup_snoc; assumption.
+  - unfold Uniq. destruct (noreg_step ws s st Hr) as [E _]. rewrite E. exact HU.
+Qed.
+
+Lemma Uniq_run ws l : forall s, Uniq s -> all_fresh ws s l = true -> Uniq (run ws s l).
+Proof.
+  induction l as [|st l IH]; intros s HU Hf; cbn [run fold_left]; [exact HU|].
+  cbn [all_fresh] in Hf. apply andb_true_iff in Hf. destruct Hf as [Hf1 Hf2].
+  apply IH; [apply Uniq_step; assumption|exact Hf2].
+Qed.
+
+Lemma Uniq0 : Uniq mux0.
+Proof. constructor. Qed.
+
 Lemma ids_distinct_reach ws l : N.of_nat (length l) + 2 < two64 -> all_fresh ws mux0 l = true ->
   NoDup (map snd (m_issued (run ws mux0 l))) /\ NoDup (map snd (m_wire (run ws mux0 l))).
-Proof. intros Hb Hf. apply (ids_distinct_inv ws). apply Inv_reach; assumption. Qed.
+Proof.
+  intros Hb Hf. apply (ids_distinct_inv ws); [apply Inv_reach; exact Hb|apply Uniq_run; [exact Uniq0|exact Hf]].
+Qed.
 
-Lemma pending_inj_reach ws l : N.of_nat (length l) + 2 < two64 -> all_fresh ws mux0 l = true ->
+(** the legacy cleanup (remove by id alone) is the same function wherever no id
+    was registered twice *)
+Lemma adel_absent {V} (l : list (N * V)) k : aget l k = None -> adel l k = l.
+Proof.
+  induction l as [|[k0 v0] l IH]; cbn [aget adel]; [reflexivity|].
+  destruct (k0 =? k); [discriminate|]. intros H. rewrite (IH H). reflexivity.
+Qed.
+
+Lemma finish_legacy_same ws s c o : Inv ws s -> Uniq s -> finish_legacy s c o = finish s c o.
+Proof.
+  intros HI HU. unfold finish_legacy, finish. destruct (aget (m_issued s) c) as [id|] eqn:Hi; [|reflexivity].
+  destruct (aget (m_pending s) id) as [c0|] eqn:P.
+  - destruct (N.eqb_spec c0 c) as [E|E]; [reflexivity|]. exfalso. apply E.
+    apply aget_Some_In in P. destruct (I_pend_iss _ _ HI _ _ P) as [A _]. apply aget_Some_In in Hi.
+    exact (assoc_inj _ _ _ _ HU A Hi).
+  - rewrite (adel_absent _ _ P). reflexivity.
+Qed.
+
+Lemma mstep_legacy_same ws s st : Inv ws s -> Uniq s -> mstep_legacy ws s st = mstep ws s st.
+Proof.
+  intros HI HU. destruct st; try reflexivity; unfold mstep_legacy, mstep;
+    (destruct (enabled s _); cbn [negb]; [apply (finish_legacy_same ws); assumption|reflexivity]).
+Qed.
+
+Lemma run_legacy_same ws l : forall s, Inv ws s -> Uniq s -> m_next s + N.of_nat (length l) < two64 ->
+  all_fresh ws s l = true -> run_legacy ws s l = run ws s l.
+Proof.
+  induction l as [|st l IH]; intros s HI HU Hb Hf; cbn [run_legacy run fold_left]; [reflexivity|].
+  cbn [all_fresh] in Hf. apply andb_true_iff in Hf. destruct Hf as [Hf1 Hf2]. cbn [length] in Hb.
+  rewrite (mstep_legacy_same ws s st HI HU).
+  apply IH.
+  - apply Inv_step; [exact HI|lia].
+  - apply Uniq_step; assumption.
+  - pose proof (next_step ws s st). lia.
+  - exact Hf2.
+Qed.
+
+Lemma legacy_same_reach ws l : N.of_nat (length l) + 2 < two64 -> all_fresh ws mux0 l = true ->
+  run_legacy ws mux0 l = run ws mux0 l.
+Proof. intros Hb Hf. apply run_legacy_same; [apply Inv0|exact Uniq0|cbn [mux0 m_next]; lia|exact Hf]. Qed.
+
+(** ** counter-issued ids strictly increase *)
+
+Lemma next_mono_step ws s st : m_next s + 1 < two64 -> m_next s <= m_next (mstep ws s st).
+Proof.
+  intros Hb. destruct (registers st) eqn:Hr.
+  - unfold mstep. destruct (negb (enabled s st)); [lia|].
+    assert (Hmod : (m_next s + 1) mod two64 = m_next s + 1) by (apply N.mod_small; exact Hb).
+    destruct st as [c|c|f|a| |c|c|c id|c]; try discriminate.
+    + destruct (isSome (aget (m_pending s) (m_next s))); simp_m; lia.
+    + destruct (isSome (aget (m_pending s) id)); simp_m; lia.
+  - destruct (noreg_step ws s st Hr) as [_ E]. rewrite E. lia.
+Qed.
+
+Lemma next_mono_run ws l : forall s, m_next s + N.of_nat (length l) < two64 -> m_next s <= m_next (run ws s l).
+Proof.
+  induction l as [|st l IH]; intros s Hb; cbn [run fold_left]; [lia|]. cbn [length] in Hb.
+  pose proof (next_mono_step ws s st). pose proof (next_step ws s st).
+  fold (run ws (mstep ws s st) l). specialize (IH (mstep ws s st)). lia.
+Qed.
+
+Lemma counter_ids_increase ws l1 l2 c :
+  N.of_nat (length l1 + length l2) + 3 < two64 -> enabled (run ws mux0 l1) (Register c) = true ->
+  m_next (run ws mux0 l1) < m_next (run ws mux0 (l1 ++ Register c :: l2)).
+Proof.
+  intros Hb En. unfold run at 2. rewrite fold_left_app. cbn [fold_left]. fold (run ws mux0 l1).
+  set (s := run ws mux0 l1) in *. fold (run ws (mstep ws s (Register c)) l2).
+  assert (Hs : m_next s <= 1 + N.of_nat (length l1)).
+  { pose proof (next_run ws l1 mux0) as Hn. cbn [mux0 m_next] in Hn. apply Hn. lia. }
+  assert (H1 : m_next (mstep ws s (Register c)) = m_next s + 1).
+  { unfold mstep. rewrite En. cbn [negb].
+    assert (Hmod : (m_next s + 1) mod two64 = m_next s + 1) by (apply N.mod_small; lia).
+    destruct (isSome (aget (m_pending s) (m_next s))); simp_m; exact Hmod. }
+  pose proof (next_mono_run ws l2 (mstep ws s (Register c))) as H2. rewrite H1 in H2.
+  assert (m_next s + 1 + N.of_nat (length l2) < two64) by lia. specialize (H2 H). lia.
+Qed.
+
+Lemma pending_inj_reach ws l : N.of_nat (length l) + 2 < two64 ->
   NoDup (map fst (m_pending (run ws mux0 l))) /\
   forall id1 id2 c, In (id1, c) (m_pending (run ws mux0 l)) -> In (id2, c) (m_pending (run ws mux0 l)) -> id1 = id2.
 Proof.
-  intros Hb Hf. pose proof (Inv_reach ws l Hb Hf) as HI. split; [exact (I_pend_nd _ _ HI)|].
+  intros Hb. pose proof (Inv_reach ws l Hb) as HI. split; [exact (I_pend_nd _ _ HI)|].
   intros id1 id2 c. apply (pending_inj_inv ws). exact HI.
 Qed.
 
-Lemma own_response_reach ws l c f : N.of_nat (length l) + 2 < two64 -> all_fresh ws mux0 l = true ->
+Lemma own_response_reach ws l c f : N.of_nat (length l) + 2 < two64 ->
   In (c, OGot f) (m_out (run ws mux0 l)) -> aget (m_issued (run ws mux0 l)) c = Some (f_id f).
-Proof. intros Hb Hf. apply (own_response_inv ws). apply Inv_reach; assumption. Qed.
+Proof. intros Hb. apply (own_response_inv ws). apply Inv_reach; assumption. Qed.
 
-Lemma at_most_one_reach ws l : N.of_nat (length l) + 2 < two64 -> all_fresh ws mux0 l = true ->
+Lemma at_most_one_reach ws l : N.of_nat (length l) + 2 < two64 ->
   NoDup (map fst (m_out (run ws mux0 l))).
-Proof. intros Hb Hf. exact (I_out_nd _ _ (Inv_reach ws l Hb Hf)). Qed.
+Proof. intros Hb. exact (I_out_nd _ _ (Inv_reach ws l Hb)). Qed.
 
-Lemma ws_no_notify_to_caller_reach l c f : N.of_nat (length l) + 2 < two64 -> all_fresh true mux0 l = true ->
+Lemma ws_no_notify_to_caller_reach l c f : N.of_nat (length l) + 2 < two64 ->
   In (c, OGot f) (m_out (run true mux0 l)) -> f_notify f = 0.
-Proof. intros Hb Hf Hin. destruct (I_out _ _ (Inv_reach true l Hb Hf) _ _ Hin) as [_ A]. exact (A eq_refl). Qed.
+Proof. intros Hb Hin. destruct (I_out _ _ (Inv_reach true l Hb) _ _ Hin) as [_ A]. exact (A eq_refl). Qed.
 
 Lemma ws_notify_readable s f : f_notify f <> 0 ->
   let s' := mstep true s (Recv f) in
@@ -1174,15 +1431,14 @@ Qed.
 
 Lemma forward_refused_continuation ws s c id o l f :
   Inv ws s -> aget (m_pending s) id = Some o ->
-  m_next s + N.of_nat (length l) + 1 < two64 -> all_fresh ws (mstep ws s (Forward c id)) l = true ->
+  m_next s + N.of_nat (length l) + 1 < two64 ->
   In (o, OGot f) (m_out (run ws (mstep ws s (Forward c id)) l)) -> f_id f = id.
 Proof.
-  intros HI P Hb Hf Hin.
-  assert (HI' : Inv ws (mstep ws s (Forward c id))).
-  { apply Inv_step; [exact HI|lia|]. cbn [fresh_reg]. rewrite P. reflexivity. }
+  intros HI P Hb Hin.
+  assert (HI' : Inv ws (mstep ws s (Forward c id))) by (apply Inv_step; [exact HI|lia]).
   destruct (forward_keeps ws s c id o P) as [_ [_ [K3 K4]]].
   assert (HIr : Inv ws (run ws (mstep ws s (Forward c id)) l)).
-  { apply Inv_run; [exact HI'| |exact Hf]. rewrite K4. lia. }
+  { apply Inv_run; [exact HI'|]. rewrite K4. lia. }
   pose proof (own_response_inv ws _ o f HIr Hin) as A.
   apply aget_Some_In in P. destruct (I_pend_iss _ _ HI _ _ P) as [B _].
   rewrite <- K3 in B. apply (issued_mono_run ws l) in B.
@@ -1190,19 +1446,19 @@ Proof.
 Qed.
 
 Lemma forward_duplicate_refused_reach ws l0 c id o :
-  N.of_nat (length l0) + 2 < two64 -> all_fresh ws mux0 l0 = true ->
+  N.of_nat (length l0) + 2 < two64 ->
   let s := run ws mux0 l0 in
   aget (m_pending s) id = Some o -> enabled s (Forward c id) = true ->
   let s' := mstep ws s (Forward c id) in
   s' = mkMux (m_next s) (m_pending s) (m_issued s) (m_wire s) (m_matched s) (m_out s ++ [(c, ORefused)]) (m_sub s) (m_dropped s) /\
   (forall f, m_matched s = None -> ws && negb (f_notify f =? 0) = false -> f_id f = id ->
      m_matched (mstep ws s' (Recv f)) = Some (o, f)) /\
-  (forall l f, N.of_nat (length l0 + length l) + 3 < two64 -> all_fresh ws s' l = true ->
+  (forall l f, N.of_nat (length l0 + length l) + 3 < two64 ->
      In (o, OGot f) (m_out (run ws s' l)) -> f_id f = id).
 Proof.
-  intros Hb Hf s P En s'. split; [exact (forward_refused_state ws s c id o P En)|]. split.
+  intros Hb s P En s'. split; [exact (forward_refused_state ws s c id o P En)|]. split.
   - intros f M E Hid. exact (forward_refused_owner ws s c id o f P M E Hid).
-  - intros l f Hb2 Hf2 Hin. eapply (forward_refused_continuation ws s c id o l f); try eassumption.
+  - intros l f Hb2 Hin. eapply (forward_refused_continuation ws s c id o l f); try eassumption.
     + apply Inv_reach; assumption.
     + pose proof (next_run ws l0 mux0) as Hn. cbn [mux0 m_next] in Hn. fold s in Hn.
       assert (1 + N.of_nat (length l0) < two64) by lia. specialize (Hn H). lia.
